@@ -265,8 +265,9 @@ class Model:
             return self.error
         base = self.susp[-1] if self.susp else 0
         if base >= self.rec_max:
-            # call() pushes its frame without consulting the limit: outside the documented domain
-            raise Unspecified("call at the recursion limit")
+            # the called word needs a frame like any other: at the limit the call is refused
+            self.error = "recursion_depth_exceeded"
+            return self.error
         self.gens.append(self._body_top(self.defs[word], base + 1, word))
         self.susp.append(base + 1)
         self.top_depth.append(base + 1)
